@@ -196,6 +196,117 @@ class Check:
         self.validated = 0
         self.extra = {}
         self.engine_notes = []
+        self.part = os.environ.get('VERIF_PART') or None      # set in a child process running one part
+
+    # ---- independent explorations of one check in parallel processes ---------------------------------
+    def want(self, part):
+        return self.part is None or self.part == part or self.part.startswith(part + ':')
+
+    def parallel(self, script, parts, post_merge=None):
+        """parent side: run every part of the check in its own process (same script, VERIF_PART=<part>),
+        merge what they report.  Returns True when the parts were run this way (the caller has nothing left
+        to do), False in a child or when VERIF_SERIAL=1 (the caller then runs the parts itself)."""
+        if self.part is not None or os.environ.get('VERIF_SERIAL') == '1' or len(parts) < 2:
+            return False
+        try:
+            get_mir()           # once, before the children ask for it
+        except BuildError as e:
+            print('INCONCLUSIVE: ' + str(e)[:2000])
+            sys.exit(2)
+        procs = []
+        maxpar = int(os.environ.get('VERIF_JOBS', '8'))
+        pending = list(parts)
+        results = {}
+        running = []
+        while pending or running:
+            while pending and len(running) < maxpar:
+                pt = pending.pop(0)
+                out = os.path.join(SCRATCH, 'part-%s-%s-%d.json' % (self.pid, re.sub(r'[^A-Za-z0-9_.-]', '_', pt), os.getpid()))
+                if os.path.exists(out):
+                    os.unlink(out)
+                env = dict(os.environ, VERIF_PART=pt, VERIF_PART_OUT=out, VERIF_TIER=self.tier, VERIF_SEED=str(self.seed))
+                log = open(out + '.log', 'w')
+                running.append((pt, out, log, subprocess.Popen([sys.executable, script], env=env, stdout=log, stderr=subprocess.STDOUT)))
+            time.sleep(0.2)
+            still = []
+            for pt, out, log, pr in running:
+                if pr.poll() is None:
+                    still.append((pt, out, log, pr))
+                    continue
+                log.close()
+                results[pt] = (out, pr.returncode)
+            running = still
+        for pt in parts:
+            out, rc = results[pt]
+            try:
+                d = json.load(open(out))
+            except Exception:
+                o = self.ob('part:' + pt, 'exploration part %s of this check' % pt)
+                o.status = 'inconclusive'
+                tail = open(out + '.log').read()[-600:] if os.path.exists(out + '.log') else ''
+                o.detail = 'the part ended (exit %s) without a report: %s' % (rc, tail)
+                continue
+            finally:
+                for f_ in (out, out + '.log'):
+                    if os.path.exists(f_) and os.environ.get('VERIF_KEEP_PARTS') != '1':
+                        try:
+                            os.unlink(f_)
+                        except OSError:
+                            pass
+            self._merge(d)
+        self.extra['parts_run_in_parallel'] = list(parts)
+        if post_merge is not None:
+            post_merge(self)
+        return True
+
+    def _merge(self, d):
+        rank = {'violated': 4, 'known': 3, 'inconclusive': 2, 'pending': 2, 'holds': 1}
+        byname = dict((o.name, o) for o in self.obligations)
+        for od in d['obligations']:
+            o = byname.get(od['name'])
+            if o is None or o.status == 'pending':
+                if o is None:
+                    o = self.ob(od['name'], od['desc'])
+                    byname[o.name] = o
+                o.status = od['status']
+                o.detail = od['detail']
+                o.wall_s, o.queries, o.paths = od['wall_s'], od['queries'], od['paths']
+                o.cex, o.key, o.replayed = od['cex'], od['key'], od['replayed']
+                continue
+            o.wall_s = max(o.wall_s, od['wall_s'])
+            o.queries += od['queries']
+            o.paths += od['paths']
+            if rank.get(od['status'], 2) > rank.get(o.status, 2):
+                o.status, o.detail, o.cex, o.key, o.replayed = od['status'], od['detail'], od['cex'], od['key'], od['replayed']
+            elif od['status'] == o.status == 'holds':
+                o.detail = '%s | %s' % (o.detail, od['detail'])
+        self.samples += d['samples']
+        for a in d['assumptions']:
+            if a not in self.assumptions:
+                self.assumptions.append(a)
+        self.bounds.update(d['bounds'])
+        self.functions.update(d['functions'])
+        for k, v in d['stats'].items():
+            self.stats[k] = self.stats.get(k, 0) + v
+        self.validated += d['validated']
+        for k, v in d['extra'].items():
+            if isinstance(v, list) and isinstance(self.extra.get(k), list):
+                self.extra[k] = self.extra[k] + [x for x in v if x not in self.extra[k]]
+            elif isinstance(v, dict) and isinstance(self.extra.get(k), dict):
+                self.extra[k].update(v)
+            else:
+                self.extra[k] = v
+
+    def _dump_part(self):
+        d = {'obligations': [{'name': o.name, 'desc': o.desc, 'status': o.status, 'detail': o.detail, 'wall_s': o.wall_s,
+                              'queries': o.queries, 'paths': o.paths, 'cex': o.cex, 'key': o.key, 'replayed': o.replayed}
+                             for o in self.obligations],
+             'samples': self.samples, 'assumptions': self.assumptions, 'bounds': self.bounds, 'functions': self.functions,
+             'stats': self.stats, 'validated': self.validated, 'extra': self.extra}
+        tmp = os.environ['VERIF_PART_OUT'] + '.tmp'
+        with open(tmp, 'w') as f:
+            json.dump(json.loads(json.dumps(d, default=str)), f)
+        os.replace(tmp, os.environ['VERIF_PART_OUT'])
 
     def ob(self, name, desc):
         o = Obligation(name, desc)
@@ -210,6 +321,12 @@ class Check:
             self.functions[n] = {'mir_sha1': h, 'mir_lines': nl}
 
     def finish(self):
+        if self.part is not None:
+            self._dump_part()
+            for o in self.obligations:
+                print('%-12s %-28s %s' % (o.status.upper(), o.name, (o.detail or '')[:160]))
+            return 0
+        self.assumptions = list(dict.fromkeys(self.assumptions))
         known, fixed = load_known()
         kn = known.get(self.pid, {})
         viol = []
